@@ -31,6 +31,7 @@ fn main() {
         scale: 1.0,
         verbose: false,
         no_evidence: false,
+        no_stop: false,
     };
     let mut i = 3;
     while i < args.len() {
@@ -69,6 +70,7 @@ fn main() {
             }
             "-v" => ctx.verbose = true,
             "--no-evidence" => ctx.no_evidence = true,
+            "--no-stop" => ctx.no_stop = true,
             _ => usage(),
         }
         i += 1;
@@ -83,6 +85,8 @@ fn main() {
         "C04" => props::c04::check(&ctx),
         "C05" => props::c05::check(&ctx),
         "C06" => props::c06::check(&ctx),
+        "C07" => props::c07::check(&ctx),
+        "C10" => props::c10::check(&ctx),
         "C13" => props::c13::check(&ctx),
         _ => {
             eprintln!("unknown property {prop}");
